@@ -24,6 +24,8 @@ def corpus():
         mk(["D0", "w", "c1:" + e("a"), "c2:" + e("b"), "t200", "e", "t200"], "w", "writes fail: noidle cannot be sent", {1: ("c", [e("a")]), 2: ("c", [e("b")])}),
         mk(["D0", "c1:" + e("a"), "S*", "D0", "S*", "D0", "w", "c2:" + e("b"), "t200", "e", "t200"], "w", "write fails inside the window", {1: ("c", [e("a")]), 2: ("c", [e("b")])}),
         mk(["D0", "c1:" + e("a"), "S*", "D0", "S*", "D0", "w", "t100", "e", "t200"], "w", "re-idle write fails", {1: ("c", [e("a")])}),
+        mk(["D0", "w1", "c1:" + e("a"), "c2:" + e("b"), "t200", "e", "t200"], "w", "writes take nothing (Ok(0)): noidle cannot be sent", {1: ("c", [e("a")]), 2: ("c", [e("b")])}),
+        mk(["D0", "c1:" + e("a"), "S*", "D0", "S*", "D0", "w1", "c2:" + e("b"), "t200", "e", "t200"], "w", "a write takes nothing inside the window", {1: ("c", [e("a")]), 2: ("c", [e("b")])}),
         mk(["D0", "S*", "h", "t200"], "h", "last handle dropped while idle", {}),
         mk(["D0", "S*", "N:" + hexs("player"), "D16", "c1:" + e("a"), "e", "t200", "t200"], "cut",
            "a request interrupts a half received idle reply, then the stream ends", {1: ("c", [e("a")])}),
@@ -39,6 +41,11 @@ def corpus():
         mk(["D0", "S*", "Z", "c1:" + e("a"), "S*", "D0", "S*", "D0", "t200", "S*", "D0", "t400", "e", "t200", "c2:" + e("b"), "t200"], "e", "events dropped, a request answered, then a clean close while quiescent", {1: ("c", [e("a")]), 2: ("c", [e("b")])}),
         mk(["D0", "S*", "Z", "c1:" + e("a"), "S*", "D0", "S*", "D0", "t50", "e", "t200", "c2:" + e("b"), "t200"], "e", "events dropped, a request answered, clean close inside the window", {1: ("c", [e("a")]), 2: ("c", [e("b")])}),
         mk(["D0", "S*", "Z", "c1:" + e("a"), "S*", "D0", "S*", "D0", "t200", "S*", "D0", "G:" + hexs(b"what\n"), "t200", "c2:" + e("b"), "t200"], "invalid", "events dropped, a request answered, then malformed data while quiescent", {1: ("c", [e("a")]), 2: ("c", [e("b")])}),
+    ] + [
+        # the stream ends inside the reply to a list, after every possible number of bytes of it — in particular right behind each list_OK
+        mk(["D0", "i1:" + ",".join([e("a"), e("b"), e("c")]), "c2:" + e("z"), "S*", "D3", "S*", f"D{k}", "e", "t200", "t200"], "cut",
+           f"stream ends {k} bytes into the reply to a list of three", {1: ("i", [e("a"), e("b"), e("c")]), 2: ("c", [e("z")])})
+        for k in range(1, len(b"line: echo a\nlist_OK\nline: echo b\nlist_OK\nline: echo c\nlist_OK\nOK\n"))
     ] + [
         # a long history of events the application has not read yet, then the failure while idle: the closing event is not one that
         # may be dropped for lack of room
@@ -81,7 +88,8 @@ def gen(ctx):
             labels += ["e"]
         elif kind in ("r", "w", "h"):
             # the kind of the transport's read error varies (reset, "unexpected eof", aborted, timed out, broken pipe ...): all are failures
-            labels += [kind + str(rng.randrange(8)) if kind == "r" else kind]
+            # ... and so does the way writes fail: an error, or a transport that takes nothing (Ok(0), which write_all reports as an error)
+            labels += [kind + str(rng.randrange(8)) if kind == "r" else rng.choice(["w", "w1"]) if kind == "w" else kind]
         else:
             gb = rng.choice(GARBAGE)
             kind = "invalid" if gb in INVALID else "garbage"
